@@ -53,7 +53,7 @@ func GenC18(t *rapid.T) *C18Case {
 		case "general":
 			if isInt {
 				var v int
-				if drawInt(t, 0, 3, "big") == 0 {
+				if oneIn(t, 4, "big") {
 					v, _ = GenInt(t)
 					if v > 1<<40 || v < -(1<<40) {
 						v >>= 24 // keep products of up to 20 factors far away from overflow
@@ -80,7 +80,7 @@ func GenC18(t *rapid.T) *C18Case {
 				c.Elems = append(c.Elems, NumSpec{IsInt: true, I: int64(v)})
 			} else {
 				x := []float64{math.MaxFloat64, -math.MaxFloat64, 1e300, -1e300, 9.3e18, -9.3e18, 5e-324, -5e-324, 0, math.Copysign(0, -1), 1.5, -2.5, 1e19, 2e19}[drawIdx(t, 14, "x")]
-				if drawInt(t, 0, 2, "rnd") == 0 {
+				if oneIn(t, 3, "rnd") {
 					x, _ = GenFloat(t)
 				}
 				c.Elems = append(c.Elems, NumSpec{F: math.Float64bits(apply(x))})
